@@ -297,6 +297,47 @@ def main():
             npred += 1; failures["rrt-script"] += 1
             if first_pred is None: first_pred = (rl, "geometric::RRT (scripted): no observation (%s) %s" % (ex, a[:80]))
     c.cov.update({"rrt_scripts": len(rlines), "rrt_disagreements": nrrt_bad, "rrt_reports": dict(rrt_stats)})
+    # (d) geometric::RRTConnect as a whole against RrtConnectModel.rc_solve: both trees (bit for bit, parents), the reported path and flag
+    clines = []
+    for i in range(400 if quick else 12000):
+        grid = rng.random() < 0.35
+        walls = [(coord(grid), lo, lo + rng.choice([0.25, 0.5, 1.0, 3.0])) for _ in range(rng.choice([0, 1, 1, 2, 3])) for lo in [coord(grid)]]
+        starts = [(coord(grid), coord(grid)) for _ in range(rng.choice([1, 1, 2, 3]))]
+        goals = [(coord(grid), coord(grid)) for _ in range(rng.choice([1, 1, 2, 4]))]
+        pts = [(coord(grid), coord(grid)) for _ in range(rng.choice([0, 1, 3, 8, 20, 50]))]
+        clines.append("RRTC %g W %d %s S %d %s G %d %s P %d %s" % (rng.choice([0.1, 0.3, 0.5, 1.0, 10.0]), len(walls), " ".join("%r %r %r" % w for w in walls), len(starts), " ".join("%r %r" % q for q in starts),
+                      len(goals), " ".join("%r %r" % q for q in goals), len(pts), " ".join("%r %r" % q for q in pts)))
+    rcc, occ, ecc, scc = vf.sh([rdrv], input="\n".join(clines) + "\n", timeout=900); c.step("correspond:impl-rrtconnect", rdrv, scc, rcc == 0)
+    rcd, ocd, ecd, scd = vf.sh([model, "rrt"], input="\n".join(clines) + "\n", timeout=900); c.step("correspond:model-rrtconnect", model + " rrt", scd, rcd == 0)
+    icl, mcl = [l for l in occ.split("\n") if l.startswith("rrtc")], [l for l in ocd.split("\n") if l.startswith("rrtc")]
+    nrc_bad = 0; rc_stats = collections.Counter()
+    for k, cl in enumerate(clines):
+        a = icl[k].strip() if k < len(icl) else "<no output>"; b = mcl[k].strip() if k < len(mcl) else "<no output>"
+        if a != b:
+            nrc_bad += 1; ndiff += 1
+            if first_diff is None or len(cl) < len(first_diff[0]): first_diff = (cl, "geometric::RRTConnect: implementation '%s' RrtConnectModel '%s'" % (a[:300], b[:300]))
+        # the statement on the implementation's own trees and report: the path runs from a start state to a goal state (exact) along
+        # motions that do not touch a wall in the direction they are traversed; an approximate path lies in the start tree
+        try:
+            w = cl.split(); nw = int(w[3]); walls = [(float(w[4 + 3 * j]), float(w[5 + 3 * j]), float(w[6 + 3 * j])) for j in range(nw)]
+            o = 4 + 3 * nw; ns = int(w[o + 1]); starts = [(float(w[o + 2 + 2 * j]), float(w[o + 3 + 2 * j])) for j in range(ns)]
+            o = o + 2 + 2 * ns; ng = int(w[o + 1]); goals = [(float(w[o + 2 + 2 * j]), float(w[o + 3 + 2 * j])) for j in range(ng)]
+            parts = [x.strip() for x in a.split("|")]; rep = parts[1].split()
+            rc_stats["none" if rep[0] != "1" else ("exact" if rep[1] == "0" else "approximate")] += 1
+            if rep[0] == "1":
+                path = [(fl(t.split()[0]), fl(t.split()[1])) for t in parts[2].split(";") if t.strip()]
+                bad = None
+                if not path or path[0] not in starts: bad = "the reported path does not begin at a start state"
+                elif any(touches(kk, u, v) for u, v in zip(path, path[1:]) for kk in walls): bad = "the reported path contains a motion that touches a wall"
+                elif rep[1] == "0" and path[-1] not in goals: bad = "the exact solution does not end at a goal state"
+                elif rep[1] == "1" and abs(fl(rep[2]) - min(math.dist(path[-1], g) for g in goals)) > 1e-12: bad = "approximate solution reports difference %r, its last state is %r from the goal" % (fl(rep[2]), min(math.dist(path[-1], g) for g in goals))
+                if bad:
+                    npred += 1; failures["rrtconnect-script"] += 1
+                    if first_pred is None: first_pred = (cl, "geometric::RRTConnect (scripted): " + bad)
+        except Exception as ex:
+            npred += 1; failures["rrtconnect-script"] += 1
+            if first_pred is None: first_pred = (cl, "geometric::RRTConnect (scripted): no observation (%s) %s" % (ex, a[:80]))
+    c.cov.update({"rrtconnect_scripts": len(clines), "rrtconnect_disagreements": nrc_bad, "rrtconnect_reports": dict(rc_stats)})
     c.cov["samples"] = jobs[:3]
     c.cov["trusted_base"] += ["harness/rrt_driver.cpp (scripted sampler, wall motion validator, reaches RRT::nn_ by re-declaring protected as public for that header) + extract/rrt_driver.ml (the same binary64 formulas for distance, steering, wall test, goal)",
                              "harness/eit_driver.cpp reaches EITstar::couldBeValid / isValid by re-declaring private as public for that header; extract/eit_driver.ml",
@@ -311,7 +352,7 @@ def main():
         c.violation("implementation violates C01: %s on '%s'" % (msg, j), "# C01 replay: bin/check C01 --replay <this file>  (or: build/harness/planner_driver <the line>)\n%s\n" % j)
     elif first_diff:
         j, msg = first_diff
-        c.broken.append("correspondence C01 (planner reports vs LedgerModel.adjudicate; EIT* edge validation vs EitModel; geometric::RRT vs RrtModel): %s on '%s'" % (msg, j))
+        c.broken.append("correspondence C01 (planner reports vs LedgerModel.adjudicate; EIT* edge validation vs EitModel; geometric::RRT / RRTConnect vs RrtModel / RrtConnectModel): %s on '%s'" % (msg, j))
     c.finish()
 
 
